@@ -72,9 +72,15 @@ Definition verify (s : store) (h : str) (p : N) (fp : str) : verdict * list stmt
 Record entry := { e_host : str; e_port : Z; e_port_is_int : bool; e_fp : str; e_first : str; e_complete : bool }.
 Inductive cb_result := CbUpdate | CbSkip | CbRaise.
 
-Definition fp_valid (fp : str) : bool :=
+(* [0-9a-f]{64} after "sha256:", on the lower-cased text *)
+Definition fp_strict (fp : str) : bool :=
   let l := lower fp in
   prefixb (lit "sha256:") l && (length (drop 7 l) =? 64)%nat && forallb (fun c => is_digit c || ((97 <=? c) && (c <=? 102))) (drop 7 l).
+Definition ends_lf (s : str) : bool := match rev s with c :: _ => c =? 10 | [] => false end.
+(* _validate_fingerprint: re.match(r"^sha256:[0-9a-f]{64}$", fp.lower()) - the `$` of re.match also matches before a final
+   line feed, so the code accepts a well-formed fingerprint followed by one "\n" (found by the Gen = Model proof of
+   Equiv/EquivTofu.v; no listed property depends on the exact format, the model follows the code) *)
+Definition fp_valid (fp : str) : bool := fp_strict fp || (ends_lf fp && fp_strict (removelast fp)).
 
 Section Import.
 Variable on_conflict : option (str -> N -> str -> str -> cb_result).
